@@ -51,6 +51,12 @@ def _range_count(it, fn_node):
     arg = e.args[-1] if len(e.args) in (1, 2) else None
     if len(e.args) == 2 and ast.unparse(e.args[0]) != "0":
         return None
+    if isinstance(arg, ast.Name):
+        # range(n) with n = int(math.ceil(L / S)) defined once
+        defs = [n.value for n in ast.walk(fn_node) if isinstance(n, ast.Assign) and len(n.targets) == 1 and
+                ast.unparse(n.targets[0]) == arg.id]
+        if len(defs) == 1:
+            arg = defs[0]
     while isinstance(arg, ast.Call) and ast.unparse(arg.func) in ("int", "math.ceil", "np.ceil"):
         arg = arg.args[0]
     if isinstance(arg, ast.BinOp) and isinstance(arg.op, ast.Div):
@@ -92,7 +98,13 @@ def check_window(ctx, fn, loop, label, pre_stmts):
            and isinstance(s.op, ast.Add)]
     ok_start = False
     why = ""
-    if start_defs:
+    lo_is_name = isinstance(slices[0].slice.lower, ast.Name)
+    hi_is_name = isinstance(slices[0].slice.upper, ast.Name)
+    if not lo_is_name:
+        # the bound is written out where it is used
+        ok_start = lo in ("%s * %s" % (counter, size), "%s * %s" % (size, counter))
+        why = "start = %s" % lo
+    elif start_defs:
         v = ast.unparse(start_defs[0].value)
         ok_start = v in ("%s * %s" % (counter, size), "%s * %s" % (size, counter))
         why = "start = %s" % v
@@ -110,8 +122,8 @@ def check_window(ctx, fn, loop, label, pre_stmts):
     stop_defs = [s for s in body if isinstance(s, ast.Assign) and ast.unparse(s.targets[0]) == hi]
     ok_stop = False
     swhy = "no definition of %s" % hi
-    if stop_defs:
-        v = stop_defs[0].value
+    if stop_defs or not hi_is_name:
+        v = stop_defs[0].value if (stop_defs and hi_is_name) else slices[0].slice.upper
         sv = ast.unparse(v)
         swhy = "stop = %s" % sv
         if isinstance(v, ast.Call) and ast.unparse(v.func) == "min" and len(v.args) == 2:
@@ -184,6 +196,11 @@ def check_windows(ctx):
                         st = _parent(st)
                     b = tuple(" ".join(ast.unparse(env.at(st, x) if st is not None else x).split())
                               for x in (node.slice.lower, node.slice.upper))
+
+                    def X(text):
+                        e_ = ast.parse(text, mode="eval").body
+                        return " ".join(ast.unparse(env.at(st, e_) if st is not None else e_).split())
+                    ob, ib = tuple(X(t) for t in ob), tuple(X(t) for t in ib)
                     ctx.check(b in (("%s + %s" % (ob[0], ib[0]), "%s + %s" % (ob[0], ib[1])),
                                     ("%s + %s" % (ib[0], ob[0]), "%s + %s" % (ib[1], ob[0]))), "R16.1",
                               "online chunks: reported expectations are taken for the rows of the chunk", node, on,
